@@ -76,6 +76,7 @@ var properties = map[string][]harnessSpec{
 		{Name: "input/ast.VerifC04ScanToken", Quick: map[string]int{"C04.window": 5}, Thorough: map[string]int{"C04.window": 6}, Marks: []string{"end", "token", "eof"}, MustTerminate: true},
 		{Name: "input/ast.VerifC04ScanToken", Quick: map[string]int{"C04.window": 3, "C04.wide": 1}, Thorough: map[string]int{"C04.window": 4, "C04.wide": 1}, Marks: []string{"end", "token", "eof"}, MustTerminate: true},
 		{Name: "input/ast.VerifC04Sentences", Quick: map[string]int{"C04.sentenceElements": 3}, Thorough: map[string]int{"C04.sentenceElements": 4}, Marks: end},
+		{Name: "cmd.VerifC04RestOnly", Marks: end},
 		{Name: "input/ast.VerifC04ParseRunes", Quick: map[string]int{"C04.runes": 4}, Thorough: map[string]int{"C04.runes": 5}, Marks: []string{"end", "accepted", "rejected"}, MustTerminate: true},
 	},
 	"C09": {
